@@ -174,3 +174,21 @@ Proof.
   - exact (grid_leaf_preimage shape shape per per g Hiso Hp Hp vals vals' minv Hr Hc).
 Qed.
 Print Assumptions C17_shifted_leaves_correspond_with_ties.
+
+(* ... so Dendrogram.compute finds the same number of leaves on the shifted data *)
+From Dendro Require Import LeafCount.
+Theorem C17_shift_keeps_the_number_of_leaves :
+  forall k a shape per n vals vals' minv,
+    0 < n -> axis_ok a shape shape per per n n true true ->
+    let g := axis_map a shape shape (iter_map k (rot1 n)) in
+    (forall pv, In pv (kept vals minv) -> inrange shape (fst pv)) ->
+    carried g (kept vals minv) (kept vals' minv) ->
+    length (leaves (compute shape (AdjGrid per) vals minv [])) =
+    length (leaves (compute shape (AdjGrid per) vals' minv [])).
+Proof.
+  intros k a shape per n vals vals' minv Hn H g Hr Hc.
+  pose proof (C17_shift_any_axis_any_amount k a shape per n Hn H) as Hiso.
+  destruct (axis_ok_allpos a shape shape per per n n true true Hn Hn H) as [Hp _].
+  exact (compute_leaf_count_iso shape shape per per g Hiso Hp Hp vals vals' minv Hr Hc).
+Qed.
+Print Assumptions C17_shift_keeps_the_number_of_leaves.
